@@ -376,31 +376,40 @@ def pushObj (o : AtomsObj) : M Nat := fun s => (.ok s.objs.length, { s with objs
 def addProp (o : Nat) (key : String) (a : Arr) : M Unit :=
   modifyS (fun s => { s with objs := s.objs.set o { s.obj o with props := (s.obj o).props ++ [⟨key, a⟩] } })
 
-/-- `view[key] = value` (also reached by `atoms.key = value` and by `Atoms.__init__`). -/
-def viewSet (o : Nat) (key : String) (src : Src) : M Unit := do
-  let s ← getS
-  let n := (s.obj o).natoms
+/-- "Broadcast if needed and allowed": the two broadcast branches copy. -/
+def viewBcast (s : State) (n : Nat) (src : Src) : M Src :=
   let v := srcVal s src
-  -- "Broadcast if needed and allowed": the two broadcast branches copy
-  let src' ← (match v.shape with
-    | [] => do
-      let flat ← liftO .value (bcast v [n])
-      pure (Src.lit ⟨v.dt, [n], flat⟩)
-    | d :: t =>
-      if d = 1 then do
-        let flat ← liftO .value (bcast v (n :: t))
-        pure (Src.lit ⟨v.dt, n :: t, flat⟩)
-      else if d ≠ n then fail .value
-      else pure src : M Src)
-  let v' := srcVal s src'
-  -- "Check that atype values are 1 or greater"
+  match v.shape with
+  | [] =>
+    match bcast v [n] with
+    | some flat => M.pure (Src.lit ⟨v.dt, [n], flat⟩)
+    | none => fail .value
+  | d :: t =>
+    if d = 1 then
+      match bcast v (n :: t) with
+      | some flat => M.pure (Src.lit ⟨v.dt, n :: t, flat⟩)
+      | none => fail .value
+    else if d ≠ n then fail .value
+    else M.pure src
+
+/-- "Check that atype values are 1 or greater". -/
+def viewGuard (key : String) (n : Nat) (v' : Val) : M Unit :=
   if key = "atype" ∧ 0 < n then
     match v'.data.mapM Cell.num? with
     | none => fail .unmodelled
     | some nums =>
       match listMin nums with
-      | some m => if m < 1 then fail .value else pure ()
+      | some m => if m < 1 then fail .value else M.pure ()
       | none => fail .value      -- np.min of an array with a zero-length trailing axis
+  else M.pure ()
+
+/-- `view[key] = value` (also reached by `atoms.key = value` and by `Atoms.__init__`). -/
+def viewSet (o : Nat) (key : String) (src : Src) : M Unit := do
+  let s ← getS
+  let n := (s.obj o).natoms
+  let src' ← viewBcast s n src
+  let v' := srcVal s src'
+  viewGuard key n v'
   -- existing key: `self[key][:] = value`; new key: bind the array itself
   match (s.obj o).find key with
   | some a => assign a (allSel n) v'
@@ -411,6 +420,14 @@ def viewSet (o : Nat) (key : String) (src : Src) : M Unit := do
     addProp o key a
 
 /-! ## `Atoms.__init__` -/
+
+/-- the assignments of `Atoms.__init__` once the number of atoms is known. -/
+def mkAtomsWith (n : Nat) (atypeS posS : Src) (extra : List (String × Src)) : M Nat := do
+  let o ← pushObj ⟨n, []⟩
+  viewSet o "atype" atypeS
+  viewSet o "pos" posS
+  forEach extra (fun kv => viewSet o kv.1 kv.2)
+  pure o
 
 /-- `Atoms(natoms=…, atype=…, pos=…, **extra)`; returns the id of the new object. -/
 def mkAtoms (natoms : Option Int) (atype pos : Option Src) (extra : List (String × Src)) : M Nat :=
@@ -436,11 +453,7 @@ def mkAtoms (natoms : Option Int) (atype pos : Option Src) (extra : List (String
         else if na = 1 then pure np
         else if np = 1 then pure na
         else fail .value : M Nat)
-    let o ← pushObj ⟨n, []⟩
-    viewSet o "atype" atypeS
-    viewSet o "pos" posS
-    forEach extra (fun kv => viewSet o kv.1 kv.2)
-    pure o
+    mkAtomsWith n atypeS posS extra
 
 /-! ## `Atoms` methods -/
 
@@ -572,9 +585,9 @@ def propAtype (o : Nat) (key : String) (v : Val) (t : Option Int) : M Unit := do
     let nt ← natypes o
     if ¬ (1 ≤ t ∧ t ≤ nt) then fail .value else
     if arrTrail s ta ≠ [] then fail .unmodelled else
-    match (s.obj o).find key with
-    | some _ => pure ()
-    | none => viewSet o key (.lit (zerosLike v))
+    (match (s.obj o).find key with
+      | some _ => pure ()
+      | none => viewSet o key (.lit (zerosLike v)) : M Unit)
     atypeGuard key v
     let s' ← getS
     let a ← keyErr ((s'.obj o).find key)
@@ -640,7 +653,7 @@ def symbolsSet (i : Nat) (value : List (Option String)) : M Unit := do
 def symbolsGet (i : Nat) : M (List (Option String)) := do
   let s ← getS
   let nt ← natypes (s.sys i).atoms
-  if (s.sys i).symbols.length < nt then symbolsSet i (s.sys i).symbols else pure ()
+  (if (s.sys i).symbols.length < nt then symbolsSet i (s.sys i).symbols else pure () : M Unit)
   let s' ← getS
   pure (s'.sys i).symbols
 
@@ -661,7 +674,7 @@ def massesSet (i : Nat) (value : List (Option Rat)) : M Unit := do
 def massesGet (i : Nat) : M (List (Option Rat)) := do
   let nt ← sysNatypes i
   let s ← getS
-  if (s.sys i).masses.length < nt then massesSet i (s.sys i).masses else pure ()
+  (if (s.sys i).masses.length < nt then massesSet i (s.sys i).masses else pure () : M Unit)
   let s' ← getS
   pure (s'.sys i).masses
 
@@ -700,12 +713,8 @@ def sysPropSetScaled (i : Nat) (key : String) (ix : Option Index) (v : Val) : M 
   let s ← getS
   let y := s.sys i
   let v' ← liftE (relToCartVal y.box v)
-  match ix with
-  | none => viewSet y.atoms key (.lit v')
-  | some ix =>
-    let a ← keyErr ((s.obj y.atoms).find key)
-    let sel ← liftE (resolve a.idx.length ix)
-    assign a sel v'
+  -- `self.atoms.view[key] = value` / `self.atoms.prop(key=key, index=index, value=value)`
+  propSet y.atoms key ix v'
 
 /-- `atoms_prop(index=…, value=atoms, scale=True)`: the donor's `pos` is overwritten first. -/
 def sysPropSetAtomsScaled (i : Nat) (ix : Option Index) (src : Nat) : M Unit := do
@@ -738,16 +747,17 @@ def sysExtend (offsetDonor : Bool) (i : Nat) (value : Int ⊕ Nat) (scale : Bool
   let a ← (match value with
     | .inl n => extendInt y.atoms n
     | .inr d => extendWith y.atoms d)
-  if scale then
+  (if scale then
     match value with
     | .inl _ => pure ()
-    | .inr d =>
+    | .inr d => do
       let s1 ← getS
       let pd ← keyErr ((s1.obj d).find "pos")
       let v' ← liftE (relToCartVal y.box (arrVal s1 pd))
       let pa ← keyErr ((s1.obj a).find "pos")
       let off : Nat := if offsetDonor then (s1.obj d).natoms else (s1.obj y.atoms).natoms
       assign pa { pos := sliceSel (s1.obj a).natoms (some (off : Int)) none 1, view := true, scalar := false } v'
+   else pure () : M Unit)
   let j ← mkSys a y.box y.pbc (some syms) none
   pure (a, j)
 
@@ -852,19 +862,19 @@ def run (offsetDonor : Bool) : Op → M Out
   | .sysPropGetAtoms i ix => do let s ← getS; let n ← propGetAtoms (s.sys i).atoms ix; pure (.obj n)
   | .sysPropSet i k ix v scale => do
     let s ← getS
-    if scale then sysPropSetScaled i k ix v else propSet (s.sys i).atoms k ix v
+    (if scale then sysPropSetScaled i k ix v else propSet (s.sys i).atoms k ix v : M Unit)
     pure .unit
   | .sysPropSetAtoms i ix src scale => do
     let s ← getS
-    if scale then sysPropSetAtomsScaled i ix src else propSetAtoms (s.sys i).atoms ix src
+    (if scale then sysPropSetAtomsScaled i ix src else propSetAtoms (s.sys i).atoms ix src : M Unit)
     pure .unit
   | .sysExtend i v scale sy => do let r ← sysExtend offsetDonor i v scale sy; pure (.objSys r.1 r.2)
   | .ixGet i ix => do let r ← ixGet i ix; pure (.objSys r.1 r.2)
   | .ixSet i ix src => do
     let s ← getS
-    match src with
-    | .inl o => setItem (s.sys i).atoms ix o
-    | .inr j => setItem (s.sys i).atoms ix (s.sys j).atoms
+    (match src with
+      | .inl o => setItem (s.sys i).atoms ix o
+      | .inr j => setItem (s.sys i).atoms ix (s.sys j).atoms : M Unit)
     pure .unit
 
 /-- one step of a history.  Malformed literals / dangling ids are `format` errors (the harness never
